@@ -470,6 +470,114 @@ def mod_residues(ctx):
                 return
 
 
+# ---------------------------------------------------------------------------------------------------------
+# further opening sites (found by defect hunting, repaired in /repo: be33b70, 3c924f8, ccbb4b9, b17c81b)
+# ---------------------------------------------------------------------------------------------------------
+def _extra_prog(site, a_val):
+    async def prog(mpc):
+        import numpy as np
+        if site == 'np_trunc':
+            T = mpc.SecFxp(16, 8)
+            a = mpc.input(T.array(np.array([a_val, 1.0])), senders=0)
+            b = mpc.input(T.array(np.array([1.5, -2.0])), senders=0)
+            return [float(v) for v in await mpc.output(a * b)]
+        if site == 'np_pow':
+            T = mpc.SecFxp(16, 8)
+            b = T.array(np.array([float(a_val), 0.0]))          # public constants as secure (integral) exponents
+            b = b + mpc.input(T.array(np.array([0.0, 0.0])), senders=0)
+            return [float(v) for v in await mpc.output(2 ** b)]
+        if site in ('to_bits_gf2', 'np_to_bits_gf2'):
+            T = mpc.SecFld(2 ** 8)
+            if site == 'to_bits_gf2':
+                a = mpc.input(T(a_val), senders=0)
+                return [int(v) for v in await mpc.output(mpc.to_bits(a, 4))]
+            a = mpc.input(T.array(np.array([a_val, a_val ^ 0xF0])), senders=0)
+            return [int(v) for v in (await mpc.output(mpc.np_to_bits(a, 4))).reshape(-1)]
+        if site == 'sincos':
+            T = mpc.SecFxp(24, 8)
+            a = mpc.input(T(a_val), senders=0)
+            return [float(v) for v in await mpc.output(list(mpc.sincos(a)))]
+    return prog
+
+
+def extra_sites(ctx, only=None):
+    """np_trunc (fixed-point ARRAY products), public base ** secret integral exponents, to_bits over binary fields with
+    l < n, sincos: the mask must cover everything of the secret that the opened value contains"""
+    rng = ctx.subrng('extra-sites')
+    N = ctx.scale(16, 120)
+    cfgs = [(3, 1, False, 30), (3, 1, True, 30), (5, 2, False, 8)] + ([(5, 2, True, 30), (4, 1, False, 30)] if ctx.thorough else [])
+    table = {'np_trunc': ('np_trunc', [-9.25, 1.25]), 'np_pow': ('_np_pow_public_int_base_secret_integral_exponent', [3, 6]),
+             'to_bits_gf2': ('to_bits', [0x35, 0xC5]), 'np_to_bits_gf2': ('np_to_bits', [0x35, 0xC5]),
+             'sincos': ('sincos', [0.5, 100.25])}
+    for (m, t, no_prss, k) in cfgs:
+        d = (t + 1) if no_prss else math.comb(m, t)
+        for site, (origin, inputs) in table.items():
+            if only and site != only:
+                continue
+            if site == 'sincos' and not ctx.thorough and (m, no_prss) != (3, False):
+                continue
+            for a_val in inputs:
+                vals, bounds = [], None
+                for n in range(N if site != 'sincos' else max(4, N // 4)):
+                    seed = rng.randrange(10**9)
+                    rep = {'kind': 'extra-site', 'site': site, 'a': a_val, 'm': m, 't': t, 'no_prss': no_prss, 'k': k, 'seed': seed}
+                    net = SimNet(m, t, no_prss=no_prss, seed=seed, sched=Scheduler(seed, 'random'), sec_param=k, max_steps=3_000_000)
+                    try:
+                        with sharemon.ShareMonitor(net, record_results=False) as mon:
+                            res = net.run(_extra_prog(site, a_val))
+                    except (Deadlock, PartyError) as exc:
+                        ctx.violation(f'C18: site {site} does not run: {str(exc)[:200]}', rep)
+                        return
+                    ops = [o for o in mon.opened[0] if o[0] == origin]
+                    if not ops or not ops[0][1]:
+                        ctx.violation(f'C18: no value opened by {site} ({origin})', rep)
+                        return
+                    vals.append(ops[0][1][0])
+                    if bounds is None:
+                        bounds = [b for o, b in mon.mask_bounds[0] if o == (origin if site != 'sincos' else '_random')]
+                ctx.case(('extra', site, m, t, no_prss, k, a_val), nontrivial=t >= 1)
+                ctx.count('site:' + site)
+                rep = {'kind': 'extra-sitestat', 'site': site, 'a': a_val, 'm': m, 't': t, 'no_prss': no_prss, 'k': k, 'N': len(vals)}
+                if site == 'np_trunc':
+                    l, f = 16, 8
+                    want = 1 << (k + l)
+                    if bounds != [want]:
+                        ctx.violation(f'C18: np_trunc of a fixed-point array product requests mask ranges '
+                                      f'{[b.bit_length() - 1 for b in bounds]} (log2), the masking argument (and trunc for scalars) '
+                                      f'needs {want.bit_length() - 1}: the double-scaled product has l + f bits', rep)
+                        return
+                    sp = round(a_val * 2**f) * round(1.5 * 2**f) + (1 << (l + f - 1))
+                    B = eff_bound(want, m, t, no_prss)
+                    mx = max((cv - sp) % p for p, cv in vals)
+                    if not ((B << f) // 8 <= mx < ((d * B) << f) + (1 << f)):
+                        ctx.violation(f'C18: np_trunc: largest mask over {len(vals)} runs has {mx.bit_length()} bits, expected about '
+                                      f'{(B << f).bit_length()}', rep)
+                        return
+                elif site == 'np_pow':
+                    l, f = 16, 8
+                    want = (1 << (l - f + k)) // (t + 1)          # per sender; the exponents are (l-f)-bit integers
+                    mx = max(((cv - (a_val << f)) % p) >> f for p, cv in vals)
+                    if not (want // 8 <= mx <= (t + 1) * want):
+                        ctx.violation(f'C18: public base ** secret exponent: the mask r in the opened b + r has at most '
+                                      f'{mx.bit_length()} bits over {len(vals)} runs, hiding the (l-f)-bit exponent to 2^-k needs '
+                                      f'about {((t + 1) * want).bit_length()} bits (mask bound per sender (2^(l-f+k))/(t+1))', rep)
+                        return
+                elif site in ('to_bits_gf2', 'np_to_bits_gf2'):
+                    hi = {cv >> 4 for _tag, cv in vals}
+                    if len(hi) < min(4, len(vals) // 3):
+                        ctx.violation(f'C18: to_bits(a, 4) over GF(2^8) opens a + r with the upper bits of a unmasked: upper nibble '
+                                      f'of the opened value over {len(vals)} runs takes the values {sorted(hi)} (a = {a_val:#x})', rep)
+                        return
+                elif site == 'sincos':
+                    l, f = 24, 8
+                    want = 1 << (k + l - f)
+                    if bounds != [want]:
+                        ctx.violation(f'C18: sincos requests mask ranges {[b.bit_length() - 1 for b in bounds]} (log2); the opened '
+                                      f'value contains a / 2 pi, which has l - f bits more than one turn: needs '
+                                      f'{want.bit_length() - 1}', rep)
+                        return
+
+
 def binom_two_sided_ok(ones, n, alpha=1e-9):
     """is `ones` out of n fair coin flips plausible? (exact binomial tail bound via Hoeffding, conservative)"""
     if n == 0:
@@ -580,6 +688,7 @@ def run(ctx):
     degree_rule(ctx)
     zero_sharing_independence(ctx)
     mod_residues(ctx)
+    extra_sites(ctx)
     model = common.LeanDriver('Share').run(lines)
     ctx.compare('mask range rounding (runtime._randoms vs MpycV.Share.maskBound)', exps, model, metas)
 
@@ -611,6 +720,10 @@ def replay(ctx, data):
         except (Deadlock, PartyError) as exc:
             return False, str(exc)[:200]
         return msg is None, msg or 'ok: every opening above threshold t is preceded by fresh sharings of zero'
+    if data.get('kind') in ('extra-site', 'extra-sitestat'):
+        c2 = common.Ctx('C18', 'quick', data.get('seed', 0))
+        extra_sites(c2)
+        return not c2.violations, (c2.violations[0][0] if c2.violations else 'ok: masks cover the secret part')
     if data.get('kind') == 'site':
         try:
             run_site(data['site'], data['a'], data['l'], data['f'], data['m'], data['t'], data['no_prss'], data['k'], data['seed'])
